@@ -254,6 +254,7 @@ def run_jobs(case):
     """case: id, jobs [ {name, src, std, ic, pd, omp, want, files, reader, dirs} ] -> {name: result}"""
     import os, shutil, tempfile
     res = {"id": case["id"], "jobs": {}}
+    case_tmp = None      # one directory for all jobs of a case: the same paths hold other files (or none) from job to job
     for job in case["jobs"]:
         want = set(job.get("want", ()))
         tmp = None
@@ -263,7 +264,11 @@ def run_jobs(case):
                 kw["include_omp_conditional_lines"] = True
             src = job["src"]
             if job.get("files") is not None:
-                tmp = tempfile.mkdtemp(prefix="inc", dir=os.path.join(common.WORK, "tmp"))
+                if case_tmp is None:
+                    case_tmp = tempfile.mkdtemp(prefix="inc", dir=os.path.join(common.WORK, "tmp"))
+                tmp = case_tmp
+                for x in os.listdir(tmp):
+                    shutil.rmtree(os.path.join(tmp, x), ignore_errors=True) if os.path.isdir(os.path.join(tmp, x)) else os.remove(os.path.join(tmp, x))
                 dirs = []
                 for dname, files in job["files"].items():
                     dd = os.path.join(tmp, dname)
@@ -278,6 +283,10 @@ def run_jobs(case):
             P = fp.create(job["std"])
             try:
                 if job.get("reader") == "file":
+                    if tmp is None:
+                        if case_tmp is None:
+                            case_tmp = tempfile.mkdtemp(prefix="inc", dir=os.path.join(common.WORK, "tmp"))
+                        tmp = case_tmp
                     path = os.path.join(tmp, "main.f90")
                     with open(path, "w") as f:
                         f.write(src)
@@ -313,6 +322,7 @@ def run_jobs(case):
                     r["st_nocpp_merged"] = h(fp.struct(t)) if nsplit else r["st_nocpp"]
             res["jobs"][job["name"]] = r
         finally:
-            if tmp:
-                shutil.rmtree(tmp, ignore_errors=True)
+            pass
+    if case_tmp:
+        shutil.rmtree(case_tmp, ignore_errors=True)
     return res
